@@ -2330,6 +2330,144 @@ def spec_all():
                       "ok": XHSPEC["bad"] == 0, "n": XHSPEC["n"], "worst_residual": XHSPEC["worst"], "detail": XHSPEC["detail"]}]
 
 
+
+# ======================================================================================================================
+# xs07 extension: the palindromic (Strang) arrangement of the two Fermi–Hubbard builders — oracle kind `strang`
+# (theorems `strang_local_error`, `strang_global`, `c07_hubbard_second_order`, `c07_hubbard2d_second_order`).  No new tie: the circuit
+# structure the theorems are about is already tied by xh07's `hubbard-*` kinds.  The oracle checks, on the REAL circuits and against the
+# dense documented Hamiltonian H = D + K (D = chemical potential + onsite, diagonal; K = hopping), exactly what the theorems claim:
+#   (1) 1-D: one real sub-step = e^{-i(τ/2)D} · M(τ) · e^{-i(τ/2)D} with M(τ) the product of the hopping factors (even bonds, then odd bonds)
+#   (2) ‖sub-step − e^{-iτH}‖ ≤ B(τ) := defect(τ) + σ³/3·e^σ, σ = |τ|(‖D‖+‖K‖), defect = 0 when there is at most one bond (the hopping
+#       generators commute), else τ² s² e^{|τ|s}, s = Σ‖hopping generators‖ = 2·#bonds·|t|
+#   (3) ‖n-sub-step circuit − e^{-i nτ H}‖ ≤ n·B(τ)
+#   (4) RECORDS the observed local order log2(err(τ)/err(τ/2)); for ≤ 1 bond the theorem says O(τ³), so the ratio must be ≥ 6 (→ 8);
+#       for more bonds the code is first order globally (hopping layers not symmetrised) — recorded, ratio ≈ 4, not demanded.
+# ======================================================================================================================
+XS_KINDS = {"strang"}
+XS_OBS = {"max_err_over_bound": 0.0, "min_local_ratio_exact_middle": float("inf"), "max_local_ratio_inexact_middle": 0.0}
+
+
+def gen_xs(rng, tier):
+    quick = tier == "quick"
+
+    def sub():
+        return rng.randrange(1 << 30)
+
+    for _rep in range(1 if quick else 4):
+        for L in (1, 2, 2, 3):
+            yield {"kind": "strang", "builder": "fh1d", "L": L, "sub": sub()}
+        for (lx, ly) in [(1, 1), (2, 1), (1, 2), (3, 1), (2, 2)]:
+            yield {"kind": "strang", "builder": "fh2d", "Lx": lx, "Ly": ly, "sub": sub()}
+
+
+def run_strang(inp):
+    rng = random.Random(inp["sub"])
+    b = inp["builder"]
+    u, t, mu = coup(rng), coup(rng), coup(rng)
+    tau = rng.choice([-1, 1]) * rng.uniform(0.004, 0.012)
+    n = rng.choice([2, 3])
+    if b == "fh1d":
+        L = inp["L"]
+        nb = max(L - 1, 0)
+        H, D, K = fh_h_1d(L, u, t, mu), fh_h_1d(L, u, 0.0, mu), fh_h_1d(L, 0.0, t, 0.0)
+        build = lambda nn, dt: cl.create_1d_fermi_hubbard_circuit(L, u, t, mu, nn, dt, 1)  # noqa: E731
+        what, sig = f"fermi_hubbard_1d(L={L})", f"strang:fh1d:{L}"
+    else:
+        Lx, Ly = inp["Lx"], inp["Ly"]
+        (H, bonds), (D, _), (K, _) = fh_h_2d(Lx, Ly, u, t, mu), fh_h_2d(Lx, Ly, u, 0.0, mu), fh_h_2d(Lx, Ly, 0.0, t, 0.0)
+        nb = len(bonds)
+        build = lambda nn, dt: cl.create_2d_fermi_hubbard_circuit(Lx, Ly, u, t, mu, nn, dt, 1)  # noqa: E731
+        what, sig = f"fermi_hubbard_2d({Lx}x{Ly})", f"strang:fh2d:{Lx}x{Ly}"
+    probs = []
+    if np.abs(D - np.diag(np.diag(D))).max() > 0 or np.linalg.norm(H - D - K, 2) > 1e-12:
+        probs.append("harness: H = D + K with D diagonal failed")
+    nD, nK = float(np.linalg.norm(D, 2)), float(np.linalg.norm(K, 2))
+    s = 2.0 * nb * abs(t)
+    exact_mid = nb <= 1
+
+    def bound(tt):
+        sg = abs(tt) * (nD + nK)
+        defect = 0.0 if exact_mid else tt * tt * s * s * math.exp(abs(tt) * s)
+        return defect + sg**3 / 3.0 * math.exp(sg)
+
+    def sub_err(tt):
+        return float(np.linalg.norm(Operator(build(1, tt)).data - sla.expm(-1j * tt * H), 2))
+
+    U1 = Operator(build(1, tau)).data
+    e1, e2 = sub_err(tau), sub_err(tau / 2)
+    B1 = bound(tau)
+    if e1 > B1 * (1 + 1e-9) + 1e-12:
+        probs.append(f"{what}: one sub-step at tau={tau:.4g} is {e1:.3e} from exp(-i tau H), above the proved bound {B1:.3e} "
+                     f"({'cubic Strang term only: <= 1 bond' if exact_mid else 'hopping-product defect + cubic Strang term'})")
+    Un = Operator(build(n, n * tau)).data
+    en = float(np.linalg.norm(Un - sla.expm(-1j * n * tau * H), 2))
+    if en > n * B1 * (1 + 1e-9) + 1e-12:
+        probs.append(f"{what}: {n} sub-steps at tau={tau:.4g} are {en:.3e} from exp(-i n tau H), above n x bound = {n * B1:.3e}")
+    if float(np.linalg.norm(Un - np.linalg.matrix_power(U1, n), 2)) > 1e-10:
+        probs.append(f"{what}: the {n}-sub-step circuit is not the {n}-th power of one sub-step")
+    ratio = e1 / e2 if e2 > 1e-13 else float("nan")
+    if B1 > 0:
+        XS_OBS["max_err_over_bound"] = max(XS_OBS["max_err_over_bound"], e1 / B1, en / (n * B1))
+    if exact_mid:
+        if e2 > 1e-11:
+            XS_OBS["min_local_ratio_exact_middle"] = min(XS_OBS["min_local_ratio_exact_middle"], ratio)
+            if ratio < 6.0:
+                probs.append(f"{what}: <= 1 bond, the palindromic sub-step must be third-order accurate locally, but err(tau)/err(tau/2) = "
+                             f"{ratio:.2f} (errors {e1:.3e} {e2:.3e}, tau={tau:.4g})")
+    elif e2 > 1e-13:
+        XS_OBS["max_local_ratio_inexact_middle"] = max(XS_OBS["max_local_ratio_inexact_middle"], ratio)
+    if b == "fh1d":
+        # clause 1 of c07_hubbard_second_order on the real circuit (operator order: later gates to the left; W is diagonal)
+        L = inp["L"]
+        nq = 2 * L
+        W = np.diag(np.exp(-0.5j * tau * np.diag(D)))
+
+        def layer(js):
+            m = np.eye(2**nq, dtype=complex)
+            for j in js:
+                for off in (0, L):
+                    g = -0.5 * t * (pauli_le({off + j: "X", off + j + 1: "X"}, nq) + pauli_le({off + j: "Y", off + j + 1: "Y"}, nq))
+                    m = sla.expm(-1j * tau * g) @ m
+            return m
+
+        M = layer([j for j in range(L - 1) if j % 2 == 1]) @ layer([j for j in range(L - 1) if j % 2 == 0])
+        dstruct = float(np.linalg.norm(U1 - W @ M @ W, 2))
+        if dstruct > 1e-10:
+            probs.append(f"{what}: the real sub-step is not e^(-i tau/2 D) * (odd hopping layer * even hopping layer) * e^(-i tau/2 D): "
+                         f"{dstruct:.3e} (tau={tau:.4g}) — the arrangement is not the palindrome the theorem is about")
+    order = math.log2(ratio) if ratio == ratio and ratio > 0 else float("nan")
+    detail = (f"tau={tau:.4g} bonds={nb} err(tau)={e1:.3e} bound={B1:.3e} err(tau/2)={e2:.3e} observed local order {order:.2f} "
+              f"({'<= 1 bond, exact middle: third order proved' if exact_mid else '> 1 bond, hopping layers not symmetrised: proved bound is second order locally; higher is observed when the layers happen to commute, e.g. 2x2'}); "
+              f"{n} sub-steps {en:.3e} <= {n * B1:.3e}")
+    return {"req": None, "impl": None, "oracle": ok(probs, detail), "kind": "strang-" + b, "sig": sig + f":{n}"}
+
+
+_gen_all_xh = gen_all
+_run_all_xh = run_all
+_spec_all_xh = spec_all
+
+
+def gen_all(rng, tier):  # noqa: F811
+    yield from _gen_all_xh(rng, tier)
+    yield from gen_xs(rng, tier)
+
+
+def run_all(inp):  # noqa: F811
+    if inp["kind"] in XS_KINDS:
+        res = run_strang(inp)
+        if "corpus_file" in inp:
+            res = dict(res, kind="corpus:" + str(res.get("kind", inp["kind"])))
+        return res
+    return _run_all_xh(inp)
+
+
+def spec_all():  # noqa: F811
+    return _spec_all_xh() + [{"name": "xs07: explicit constants of strang_local_error / c07_hubbard_second_order on the real Hubbard sub-steps "
+                                      "(err <= defect + sigma^3/3 e^sigma); observed on this run: "
+                                      + ", ".join(f"{k}={v:.3g}" for k, v in XS_OBS.items()),
+                              "ok": True, "n": 1, "worst_residual": XS_OBS["max_err_over_bound"], "detail": ""}]
+
+
 if __name__ == "__main__":
     ib.main("C07", gen_all, run_all, driver="Trotter",
             rule="gate lists of all circuit builders (chains L=1..9 x both bc, grids <= 4x4, seeded parameters/steps); terms captured "
@@ -2351,7 +2489,11 @@ if __name__ == "__main__":
                           "Fermi–Hubbard builders the analytic limit is measured (step halving, derivative at dt = 0), not proved",
                           "xh07: it is now a theorem for the two Fermi–Hubbard builders as well (hubbard1d/2d_step_consistent, "
                           "hubbard1d/2d_trotter_converges, first-order bound); the second-order accuracy of the palindromic arrangement is "
-                          "measured only"],
+                          "measured only",
+                          "xs07: the second-order accuracy of the palindromic arrangement is now a theorem as far as the code is symmetric "
+                          "(strang_local_error, strang_global, c07_hubbard_second_order: Strang step around the hopping product; the "
+                          "hopping layers themselves are not symmetrised, so beyond one bond the builders are first order — proved bound, "
+                          "measured order recorded by the `strang` oracle)"],
             assumptions=["parameters handed to the model are the binary64 values the builders received, as exact rationals",
                          "±pi/2 of the basis-change rotations is compared symbolically"],
             spec=spec_all)
